@@ -348,7 +348,8 @@ def step (fs : List String) : String :=
           let (now, n, acc) := st
           let n' := if wd.1 == 'b' then GE.TagSem.bmUpdate GE.TagSem.jsonSem wd.2.2 [] wd.2.1 t n
                     else GE.TagSem.update GE.TagSem.jsonSem now wd.2.2 [] (wd.1 == 't') [] t n
-          (now + 1, n', acc ++ [if n'.hasUnsup then "unsupported" else n'.print])) (1, n0, [if n0.hasUnsup then "unsupported" else n0.print])
+          (now + 1, n', acc ++ [if n'.hasUnsup then "unsupported" else n'.print ++ " |" ++ GE.TagSem.printPaths (GE.TagSem.mpaths GE.TagSem.jsonPSem wd.2.2 [] [] t)]))
+          (1, n0, [if n0.hasUnsup then "unsupported" else n0.print ++ " |" ++ GE.TagSem.printPaths (GE.TagSem.mpaths GE.TagSem.jsonPSem D0 [] [] t)])
         "\t".intercalate ((",".intercalate adv :: outs).map esc)
       | _, _, _ => "bad-tree"
     | _, _ => "bad-sexp"
